@@ -67,6 +67,15 @@ class BuiltinMixin:
             return V(TInt, v.t.get('int', v.z))
         return v
 
+    def bi_hasattr(self, args, kwargs, node):
+        '''hasattr(<external module>, '<name>'): a property of the installation, unknown but fixed
+        (one boolean constant per module attribute); other receivers are outside the subset.'''
+        from .sym import is_py
+        tgt, nm = args[0], args[1]
+        if is_py(tgt, 'extmodule') and nm.py is not None and nm.py[0] == 'strlit':
+            return mk_bool(z3.Bool('env_has_%s_%s' % (tgt.py[1].replace('.', '_'), nm.py[1])))
+        raise Unsupported('hasattr on %s' % (tgt.py,))
+
     def bi_min(self, args, kwargs, node):
         return self._minmax(args, True)
 
